@@ -30,7 +30,7 @@ MECHANISMS = ["jaxley.modules.base:Module.record", "jaxley.modules.base:Module._
               "jaxley.stimulus:step_current", "jaxley.stimulus:datapoint_to_step_currents", "jaxley.modules.base:Module.step"]
 MECHANISMS_REQUIRED = ["jaxley.modules.base:Module.record", "jaxley.modules.base:Module._external_input", "jaxley.modules.base:Module._get_external_input"]
 REQUIRED = {"quick": {"matrix_ref": 40, "charge_target": 15, "tmax": 30, "data_equiv": 30, "row_identity": 100, "clamp_hold": 12},
-            "thorough": {"matrix_ref": 200, "charge_target": 75, "tmax": 150, "data_equiv": 150, "row_identity": 500, "clamp_hold": 60}}
+            "thorough": {"matrix_ref": 567, "charge_target": 140, "tmax": 567, "data_equiv": 660, "row_identity": 2412, "clamp_hold": 272}}
 BACKENDS = ["jaxley.stone", "jaxley.thomas", "jax.sparse"]
 SYN = ["IonotropicSynapse", "TestSynapse", "TanhRateSynapse"]
 
